@@ -1,7 +1,7 @@
 (* C18 -- Actions are well-formed value objects
    Property theorems only: each proof is one application of a lemma proved in Proofs/, followed by Print Assumptions. *)
 From Coq Require Import ZArith List Bool.
-From CS Require Repr Ops RevConv RevBridge4 RevolveRun DiskRun OnlineWF HRevRun HRevTop TLWF.
+From CS Require Repr ActVal ActValProofs Ops RevConv RevBridge4 RevolveRun DiskRun OnlineWF HRevRun HRevTop TLWF.
 From CS Require Import Actions NAdvance Multistage Exec Sched RunFacts Projections BasicInv MultistageRun AllocTotal TLBridge MixBridge.
 Import ListNotations.
 Open Scope Z_scope.
@@ -142,4 +142,75 @@ Theorem C18_z_roundtrip :
 Proof. exact (@Repr.z_roundtrip). Qed.
 Print Assumptions C18_z_roundtrip.
 End M_C18_z_roundtrip.
+
+(* VALUE LAWS on the model ActVal (repr / the reading back of a repr / len / iteration / membership; tied to schedule.py by the val.act correspondence cases, which compare the texts and results with the implementation on directly constructed actions, and by the translation obligations of Gen/ActValGen.v): the text repr() prints, sys.maxsize special case included, reads back to the same action -- every action, every integer *)
+Module M_C18_repr_roundtrip.
+Import ActValProofs.
+Theorem C18_repr_roundtrip :
+  forall a : Actions.action, ActVal.act_parse (ActVal.act_repr a) = Some a.
+Proof. exact (@ActValProofs.repr_roundtrip). Qed.
+Print Assumptions C18_repr_roundtrip.
+End M_C18_repr_roundtrip.
+
+(* ... hence two actions with the same repr are the same action *)
+Module M_C18_repr_injective.
+Import ActValProofs.
+Theorem C18_repr_injective :
+  forall a b : Actions.action, ActVal.act_repr a = ActVal.act_repr b -> a = b.
+Proof. exact (@ActValProofs.repr_injective). Qed.
+Print Assumptions C18_repr_injective.
+End M_C18_repr_injective.
+
+(* == holds exactly between actions of the same kind with equal parameters (total: never raises) *)
+Module M_C18_eq_is_equality.
+Import ActValProofs.
+Theorem C18_eq_is_equality :
+  forall a b : Actions.action, Actions.act_eqb a b = true <-> a = b.
+Proof. exact (@ActValProofs.act_eqb_eq). Qed.
+Print Assumptions C18_eq_is_equality.
+End M_C18_eq_is_equality.
+
+(* == holds iff the reprs are equal *)
+Module M_C18_eq_iff_repr.
+Import ActValProofs.
+Theorem C18_eq_iff_repr :
+  forall a b : Actions.action, Actions.act_eqb a b = true <-> ActVal.act_repr a = ActVal.act_repr b.
+Proof. exact (@ActValProofs.eq_iff_repr). Qed.
+Print Assumptions C18_eq_iff_repr.
+End M_C18_eq_iff_repr.
+
+(* Forward / Reverse covering n0 .. n1-1 (n0 <= n1): iteration yields a duplicate-free list of exactly the steps k with n0 <= k < n1, ascending for Forward and descending for Reverse, len is its length n1 - n0, and `k in a` holds exactly for its members *)
+Module M_C18_steps_enumerated.
+Import ActValProofs.
+Theorem C18_steps_enumerated :
+  forall (a : Actions.action) (n0 n1 : Z),
+         covers a n0 n1 ->
+         n0 <= n1 ->
+         exists l : list Z,
+           ActVal.act_iter a = Actions.Ok l /\
+           ActVal.act_len a = Actions.Ok (Z.of_nat (length l)) /\
+           Z.of_nat (length l) = n1 - n0 /\
+           (forall k : Z, In k l <-> n0 <= k < n1) /\
+           (forall k : Z, ActVal.act_mem a k = Actions.Ok true <-> In k l) /\
+           NoDup l /\
+           match a with
+           | Actions.Forward _ _ _ _ _ => Sorted.StronglySorted Z.lt l
+           | _ => Sorted.StronglySorted Z.gt l
+           end.
+Proof. exact (@ActValProofs.steps_enumerated). Qed.
+Print Assumptions C18_steps_enumerated.
+End M_C18_steps_enumerated.
+
+(* Copy, Move, EndForward, EndReverse define none of len / iteration / membership (TypeError) *)
+Module M_C18_no_steps_elsewhere.
+Import ActValProofs.
+Theorem C18_no_steps_elsewhere :
+  forall a : Actions.action,
+         (forall n0 n1 : Z, ~ covers a n0 n1) ->
+         ActVal.act_len a = Actions.Err Actions.TypeError /\
+         ActVal.act_iter a = Actions.Err Actions.TypeError /\
+         (forall k : Z, ActVal.act_mem a k = Actions.Err Actions.TypeError).
+Proof. exact (@ActValProofs.no_steps). Qed.
+Print Assumptions C18_no_steps_elsewhere.
+End M_C18_no_steps_elsewhere.
 
